@@ -55,6 +55,14 @@ def run(ctx):
         except Exception:
             py = 'none'
         cases.append(('amt_parse %s' % s, py, True))
+        # the integer forms used in serialisation
+        v_ = Value.from_satoshi(n)
+        if int.from_bytes(v_.to_bytes(), 'little') != n or int.from_bytes(bytes.fromhex(v_.to_hex()), 'little') != n:
+            ctx.violation('Value.to_bytes / to_hex is not the amount in smallest units', {'op': 'to_bytes %d' % n, 'observed': v_.to_hex()})
+        for form, txt_ in (('str_unit', v_.str_unit()), ('__str__', str(v_)), ('str()', v_.str())):
+            if value_to_satoshi(txt_) != n:
+                ctx.violation('formatting an amount and parsing it back changes it', {'op': 'fmt-parse %d' % n, 'form': form, 'text': txt_,
+                                                                                     'observed': value_to_satoshi(txt_)})
         # the library's own formatting, parsed back
         txt = Value.from_satoshi(n).str(1)
         if value_to_satoshi(txt) != n:
@@ -72,8 +80,8 @@ def run(ctx):
 
     # ---- every denominator symbol, every network -------------------------------------------------------------------------------
     def trig(extra, op, py, spec):
-        e = int(op.split(' ')[2])
-        if e > 0:
+        e, k_ = int(op.split(' ')[2]), int(op.split(' ')[3])
+        if e > 0 and k_ < 8 + e:
             # digits are cut (more than 8 decimals would be needed): any correct rounding of the last shown digit is fine
             try:
                 a, b = int(py.replace('.', '')), int(spec.replace('.', ''))
@@ -103,6 +111,15 @@ def run(ctx):
                 num = 'none'
             cases.append(('amt_fmt %d %d %d' % (n, e, decimals), num, True))
             ctx.count('denominator:' + (sym or 'unit'))
+            need = -int(round(math.log10(nw.denominator / den)))
+            if need > 8 and rng.random() < 0.5:
+                # all the decimals the unit needs, asked for explicitly ("denominators up to 14 decimals")
+                try:
+                    num = Value.from_satoshi(n, network=net).str(den, decimals=need).split(' ')[0]
+                except Exception as ex:
+                    num = 'none'
+                cases.append(('amt_fmt %d %d %d' % (n, e, need), num, True))
+                ctx.count('explicit-decimals:%d' % need)
     ctx.compare(cases, 'format', trigger_findings=trig)
 
     # ---- amount strings with a denominator symbol: '<decimal> <symbol><currency code>' must be the exact amount ----------------
